@@ -45,7 +45,7 @@ def value_case(draw, ctx):
     if name in gens.ADAPTIVE:
         case = draw(rfagen.rfa_case(ctx, strategies=[name], ykinds=["int", "ties"], m_lo=2))
         p = draw(st.sampled_from([2.0, 0.5, -1.0, -2.0, 4.0, 0.125, -0.25, 8.0, 1.0, 2.0 ** -12, 2.0 ** -20,
-                                  -2.0 ** -16, 2.0 ** 12, 2.0 ** 20]))
+                                  -2.0 ** -16, 2.0 ** 12, 2.0 ** 20, 2.0 ** -40, -2.0 ** -33, 2.0 ** 40]))
         q = float(draw(st.integers(-50, 50)))
     else:
         case = draw(rfagen.rfa_case(ctx, strategies=[name], m_lo=2))
@@ -64,9 +64,13 @@ def value_body(ctx, case):
     if not np.array_equal(xs1, xs2):
         raise Violation("abscissae depend on the values")
     want = p * z1 + q
-    scale = float(np.max(np.abs(want)) + abs(q) + np.max(np.abs(p * z1))) + 1e-300
+    # the map must be reproduced relative to the size of the mapped *variation* |p|*|z| (a shift q much larger than
+    # that only contributes its rounding): otherwise thresholds on absolute jump sizes hide behind a large q
+    vscale = abs(p) * float(np.max(np.abs(z1))) + 1e-300
+    tol = _tol(case["strategy"]) * vscale + (1e-10 if case["strategy"] == "CubicSplineRFA" else 64 * EPS) * (
+        abs(q) + vscale)
     dev = float(np.max(np.abs(z2 - want)))
-    if dev > _tol(case["strategy"]) * scale:
+    if dev > tol:
         i = int(np.argmax(np.abs(z2 - want)))
         raise Violation(f"{case['strategy']}: rfa(x, {p!r}*y+{q!r}) differs from {p!r}*rfa(x,y)+{q!r} at sample {i}: "
                         f"{z2[i]!r} vs {want[i]!r}", detail=dict(kw=case["kw"], n=case["n"]))
